@@ -579,6 +579,11 @@ class Translator:
             suffix = '__' + '_'.join(parts) if parts else '__void'
             if 'const' in sig.rsplit(')', 1)[-1] and node.get('kind') == 'CXXMethodDecl':
                 suffix += '_c'
+        par_ = tu.parent.get(node.get('id'))
+        if par_ is not None and par_.get('kind') == 'FunctionTemplateDecl':
+            # instantiations of one function template differ by template arguments: add the return type
+            rt = re.sub(r'WorldBuilder::|std::|const |&|\s', '', self._ret_type(node))
+            suffix += '__ret_' + re.sub(r'[^A-Za-z0-9]+', '_', rt).strip('_')[:40]
         return base + suffix
 
     def _overloaded(self, tu, node, qual):
@@ -618,13 +623,15 @@ class Translator:
         ref = d or node
         cn = cname or self.cname_for(tu, ref)
         if cn in self.funcs:
+            if sig_key(self.funcs[cn]['sig']) != sig_key(ref['type']['qualType']):
+                raise ExtractionBreak('C name collision for %s: %s vs %s' % (cn, self.funcs[cn]['sig'], ref['type']['qualType']))
             return cn
         info = dict(cname=cn, node=ref, tu=tu, body=None, throws=None, qual=tu.qual(ref), loops=0,
                     sig=ref['type']['qualType'])
         self.funcs[cn] = info
         self.order.append(cn)
         self._proto(info)
-        if cn in self.stub or ref.get('pure'):
+        if cn in self.stub or ref.get('pure') or any(cn.startswith(px) for px in self.cfg.get('stub_prefixes', [])):
             info['stub'] = True
             info['throws'] = cn not in self.nothrow_stubs
             return cn
@@ -1568,7 +1575,8 @@ class FunctionBody:
             if len(real) == 1:
                 at = self.qt(real[0])
                 if 'char' in at and ('*' in at or '[' in at):
-                    return 'wb_string_from_cstr(%s)' % self.expr(real[0])
+                    lit = self.str_lit(real[0])
+                    return lit if lit else 'wb_string_from_cstr(%s)' % self.expr(real[0])
             brk('string constructor form %s' % ctor_t, n)
         if ct.kind == 'record':
             if hasattr(ct, 'pair'):
@@ -1979,10 +1987,22 @@ class FunctionBody:
             return '(%s)' % eq if opname == 'operator==' else '(!(%s))' % eq
         brk('operator %s on %s' % (opname, t0.c), n)
 
+    def str_lit(self, a):
+        """std::string built from a string literal: an opaque handle determined by the literal's content"""
+        x = self.strip(a)
+        while x.get('kind') in ('ImplicitCastExpr', 'MaterializeTemporaryExpr', 'CXXBindTemporaryExpr') and x.get('inner'):
+            x = self.strip(x['inner'][0])
+        if x.get('kind') == 'StringLiteral':
+            import zlib
+            txt = json.loads(x['value']) if x['value'].startswith('"') else x['value']
+            return 'wb_string_lit(0x%xul) /* %s */' % ((zlib.crc32(txt.encode()) | 0x100000000) if txt else 0, x['value'][:40].replace('*/', ''))
+        return None
+
     def str_arg(self, a):
         at = strip_cv(self.qt(self.strip(a)))
         if 'char' in at and ('*' in at or '[' in at):
-            return 'wb_string_from_cstr(%s)' % self.expr(a)
+            lit = self.str_lit(a)
+            return lit if lit else 'wb_string_from_cstr(%s)' % self.expr(a)
         return self.expr(a)
 
     def e_CXXNewExpr(self, n):
@@ -2035,11 +2055,12 @@ if __name__ == '__main__':
     ap.add_argument('--stub', action='append', default=[])
     ap.add_argument('--alias', action='append', default=[], help='qual|sig=cname')
     ap.add_argument('--outline', action='store_true')
+    ap.add_argument('--stub-prefix', action='append', default=[])
     ap.add_argument('--whole', action='store_true', help='dump the whole TU (functions outside namespace WorldBuilder)')
     a = ap.parse_args()
     aliases = dict(x.rsplit('=', 1) for x in a.alias)
     try:
-        tr = translate([dict(tu=a.tu, qual=a.qual, sig=a.sig, cname=a.cname, filter='' if a.whole else 'WorldBuilder')], dict(stub=a.stub, aliases=aliases, outline_fp=a.outline))
+        tr = translate([dict(tu=a.tu, qual=a.qual, sig=a.sig, cname=a.cname, filter='' if a.whole else 'WorldBuilder')], dict(stub=a.stub, aliases=aliases, outline_fp=a.outline, stub_prefixes=a.stub_prefix))
         sys.stdout.write(tr.emit())
         for d in sorted(set(tr.dropped)):
             sys.stderr.write('dropped: %s\n' % d)
